@@ -20,6 +20,11 @@ RULE = ('a real EventMgr on a temp root and the in-memory ZooKeeper holding /pla
         'complete old or complete new manifest; (b) in a second pass an OSError is raised there: afterwards no partial '
         'non-dot file and no temp file of that write is left. Non-trivial: a failpoint strictly inside a write of a manifest '
         'larger than the stdio buffer, or a convergence case with stale+missing+outdated entries; distinct by '
+        '(case, app, point). 1 case in 4 stores the manifests as byte-identical legacy YAML (replicas of one application). '
+        '(3) service loop: the real EventMgr.run() with its presence DataWatch and placement ChildrenWatch; time.sleep '
+        '(the heartbeat) applies the next scripted change - instances placed (JSON or shared YAML manifest), evicted one '
+        'by one down to an empty node, presence lost / regained, start with stale files and nothing placed - and after '
+        'every change the cache must mirror the placement. Distinct by '
         '(case, app, point).')
 ASSUMPTIONS = ['in-memory ZooKeeper fake; real filesystem under a temp dir', 'EventMgr._hostname set by the harness',
                'what another process (or the disk after a kill) sees at an instant is what the kernel has: the harness reads the directory from inside the hook without flushing the writer\'s buffers',
